@@ -32,6 +32,7 @@ impl SwiftField for Field23 {
     where
         Self: Sized,
     {
+        super::swift_utils::require_ascii(input, "Field 23")?;
         if input.len() < 4 {
             // Minimum: 3 char function code + 1 char reference
             return Err(ParseError::InvalidFormat {
@@ -203,6 +204,7 @@ impl SwiftField for Field23E {
     where
         Self: Sized,
     {
+        super::swift_utils::require_ascii(input, "Field 23E")?;
         if input.len() < 4 {
             return Err(ParseError::InvalidFormat {
                 message: format!(
